@@ -58,12 +58,11 @@ def check(ctx):
     check_position(ctx)
 
 
-def check_position(ctx):
+def check_position(ctx, inst="C04.position"):
     """two-slot journal: a new journal record must never overwrite the newest valid one, on any run of recovery. That needs
     the (generation, slot) of the record recovery decoded to be restored unconditionally before recovery's own first
     journal write, the next position to be (generation + 1, the *other* slot), and the in-memory position to advance only
     after the record is on the device."""
-    inst = "C04.position"
     def on_field(name):
         return lambda bb, n: R.recv_expr(bb, n).has_field("DiskIO", name)
     st_gen = R.call("Atomic::store", "AtomicU64::store").filter(on_field("journal_generation"), "journal_generation.store")
